@@ -1,3 +1,10 @@
+-- root of the library: everything `lake build EpgVerif` must compile
 import EpgVerif.Model.Scalar
 import EpgVerif.Model.CF
 import EpgVerif.Model.Expr
+import EpgVerif.Model.Coeff
+import EpgVerif.Model.State
+import EpgVerif.Model.Ops
+import EpgVerif.Model.Bloch
+import EpgVerif.Props.C01
+import EpgVerif.Audit.C01
